@@ -26,6 +26,11 @@ class MethodSignature(LeafExpr):
             )
         elif len(methodName) == 0:
             raise TealInputError("invalid input empty string to Method")
+        elif any(c in methodName for c in '"\\\n\r'):
+            # the signature is emitted between double quotes without escaping
+            raise TealInputError(
+                "invalid character in method signature {!r}".format(methodName)
+            )
         self.methodName = methodName
 
     def __teal__(self, options: "CompileOptions"):
